@@ -39,7 +39,8 @@ SEEDS = ['0', '1', '2', '3', '5', '8', '13', '21', 'random', 'random']
 
 def lattice(tier):
     nserv = [1, 2] if tier == 'quick' else [1, 2, 3]
-    hdrs = [0, 1, 2]
+    # ('svc': the service declares a default header class; one method overrides it with another class, the other uses it)
+    hdrs = [0, 1, 2, 'svc']
     nss = [1, 3] if tier == 'quick' else [1, 2, 3]
     out = []
     for ns_, opn, msgn, hd, flt, pt, nn, style, proto in itertools.product(nserv, (False, True), (False, True), hdrs, ('none', 'one', 'shared', 'foreign-ns'),
@@ -70,7 +71,7 @@ def lattice_program(f):
         classes.append({'n': 'Hub', 'fields': [['q%d' % k, ['c', 'Q%d' % k, {}]] for k in range(4)] + [['p2', ['c', 'P2', {}]]]})
     top = 'P%d' % (nn - 1)
     hs = []
-    for i in range(f['headers']):
+    for i in range(2 if f['headers'] == 'svc' else f['headers']):
         classes.append({'n': 'H%d' % i, 'fields': [['h', U], ['n', I]]})
         hs.append('H%d' % i)
     # ('foreign-ns': the fault class declares a namespace of its own, other than the application's)
@@ -86,7 +87,10 @@ def lattice_program(f):
         if f['msgnames']:
             a['kw']['_in_message_name'] = 'In%d' % si
             a['kw']['_out_message_name'] = 'Out%d' % si
-        if hs:
+        if f['headers'] == 'svc':
+            a['in_header'], a['out_header'] = ['H1'], ['H1']
+            b.update({'in_header': ['H0'], 'out_header': ['H0'], 'header_from_service': True})
+        elif hs:
             a['in_header'] = list(hs)
             a['out_header'] = list(hs)
         if f['faults'] in ('one', 'shared', 'foreign-ns'):
@@ -94,6 +98,8 @@ def lattice_program(f):
         if f['faults'] == 'shared':
             b['throws'] = ['F1']
         s = {'n': 'S%d' % si, 'methods': [a, b]}
+        if f['headers'] == 'svc':
+            s['in_header'], s['out_header'] = ['H0'], ['H0']
         if f['port_types'] is True or (f['port_types'] == 'first' and si == 0) or (f['port_types'] == 'last' and si == f['nserv'] - 1):
             s['port_types'] = ['PT%d' % si]
             a['kw']['_port_type'] = 'PT%d' % si
@@ -246,6 +252,8 @@ def zeep_calls(program, b, app, w, proto, res, V, values=None):
             if m.get('in_header'):
                 hdr = {hn: {'h': 'hv', 'n': 3} for hn in m['in_header']}
             res['cov']['zeep_calls'] = res['cov'].get('zeep_calls', 0) + 1
+            cl._vf_transport.last_request = None
+            cl._vf_transport.last_response = None
             r = op(_soapheaders=hdr, **zargs) if hdr else op(**zargs)
         except ZFault as zf:
             if raise_fault:
@@ -262,6 +270,11 @@ def zeep_calls(program, b, app, w, proto, res, V, values=None):
             V('zeep-call-faulted', str(zf.code)[:40], 'zeep call of %s answered with fault %s: %s; request=%r' % (opname, zf.code, zf.message, (cl._vf_transport.last_request or b'')[:400]))
             continue
         except Exception as e:
+            if hdr and cl._vf_transport.last_request is None and isinstance(e, (TypeError, KeyError, AttributeError, ValueError)):
+                # nothing was sent: the client built from the WSDL does not accept the header blocks the method declares
+                # (their values are a text and an integer: nothing the toolkit could fail to encode)
+                V('zeep-header-not-offered', type(e).__name__, 'zeep built from the WSDL refuses the declared header(s) %s of %s: %r' % (sorted(hdr), opname, e))
+                continue
             if 'zeep' in (type(e).__module__ or '') or drv.innermost_spyne_frame(e) == 'outside-spyne':
                 # the toolkit itself could not encode the value or decode the reply: only reported when the reply is
                 # not valid under the published schema
